@@ -469,6 +469,15 @@ def harr_streams(check, prop):
         ops = ["new %d" % H.memsize(300)] + [put(k, b"v") for k in uni] + ["walk", "check", "drop"]
         ops += [H.op_get(k) for k in uni[::6] + uni[126:]] + ["check", "drop"] + [H.op_rm(k) for k in uni] + ["walk", "check", "drop", "end"]
         sts.append(S("one-home-129", ops))
+        # truncated keys that differ in one half of their MD5 only (H.MD5_HALF_PAIRS), sharing a home slot
+        for half, a, b in H.MD5_HALF_PAIRS:
+            hcap = H.shared_home_cap(a, b)
+            if hcap is not None:
+                sput = lambda k, v: "put %s %s %s" % (hexs(k + b"\0"), hexs(v), H.hk(k + b"\0"))
+                sget = lambda k: H.op_get(k + b"\0")
+                srm = lambda k: H.op_rm(k + b"\0")
+                ops = H.digest_pair_ops(a, b, hcap, rng, sput, sget, srm, init="new %d" % H.memsize(hcap), extra=("walk", "check", "drop"))
+                sts.append(S("digest-%s-half" % half, ops + ["end"]))
         ops = []
         for ln in range(1, 21):
             ops.append("new %d" % H.memsize(4))
